@@ -398,6 +398,22 @@ def body_term(stmts: Sequence[ast.stmt], env: Env) -> Term:
         return body_term(rest, env)
     if isinstance(st, (ast.Assign, ast.AnnAssign)):
         targets = st.targets if isinstance(st, ast.Assign) else [st.target]
+        # counting loop:  c = 0; for v in D: [if C:] c += 1
+        if len(targets) == 1 and isinstance(targets[0], ast.Name) and isinstance(st.value, ast.Constant) and st.value.value == 0 and type(st.value.value) is int \
+                and rest and isinstance(rest[0], ast.For) and not rest[0].orelse and len(rest[0].body) == 1:
+            c = targets[0].id
+            b = rest[0].body[0]
+            cond_node = None
+            if isinstance(b, ast.If) and not b.orelse and len(b.body) == 1:
+                cond_node, b = b.test, b.body[0]
+            if isinstance(b, ast.AugAssign) and isinstance(b.op, ast.Add) and isinstance(b.target, ast.Name) and b.target.id == c and isinstance(b.value, ast.Constant) and b.value.value == 1:
+                inner = env.child()
+                dom = ("iter", T(rest[0].iter, env))
+                bind_target(rest[0].target, inner)
+                cond = T(cond_node, inner) if cond_node is not None else TRUE
+                env = env.child()
+                env.names[c] = ("count", dom, cond)
+                return body_term(rest[1:], env)
         if len(targets) == 1 and isinstance(targets[0], ast.Name) and st.value is not None:
             env = env.child()
             env.names[targets[0].id] = T(st.value, env)
@@ -455,6 +471,17 @@ def body_term(stmts: Sequence[ast.stmt], env: Env) -> Term:
                 return mk_or([("exists", dom, c), after])
             if k == FALSE:
                 return mk_and([("forall", dom, neg(c)), after])
+        # `for v in D: return K` – the first element decides (non-emptiness)
+        if len(st.body) == 1 and isinstance(st.body[0], ast.Return):
+            inner = env.child()
+            dom = ("iter", T(st.iter, env))
+            bind_target(st.target, inner)
+            k = T(st.body[0].value, inner) if st.body[0].value is not None else ("none",)
+            after = body_term(rest, env)
+            if k == TRUE:
+                return mk_or([("exists", dom, TRUE), after])
+            if k == FALSE:
+                return mk_and([("forall", dom, FALSE), after])
         if len(st.body) == 1 and isinstance(st.body[0], ast.Expr) and isinstance(st.body[0].value, ast.YieldFrom) and not rest:
             inner = env.child()
             dom = ("iter", T(st.iter, env))
